@@ -134,39 +134,42 @@ def verify(pid, n, note='', src_root='/tmp/wt', tag=''):
         sh(f'git -C /repo worktree remove --force {wt}')
 
 
-def recheck():
+def _recheck_one(d):
     from ddverif import selftest
-    rows = []
-    for d in sorted(glob.glob(os.path.join(HERE, 'seeded', '*'))):
-        mp = os.path.join(d, 'meta.json')
-        if not os.path.exists(mp):
-            continue
-        meta = json.load(open(mp))
-        patch = os.path.join(d, 'patch.diff')
-        tmp = tempfile.mkdtemp(prefix='seeded-', dir='/tmp')
-        try:
-            os.makedirs(os.path.join(tmp, 'dd'))
-            for rel in selftest.FILES:
-                s = os.path.join('/repo', rel)
-                if os.path.exists(s):
-                    shutil.copy(s, os.path.join(tmp, rel))
-            rc, out = sh(f'patch -p1 -s < {patch}', cwd=tmp)
-            if rc:
-                rows.append((os.path.basename(d), 'PATCH-FAILS', out[:80]))
-                continue
-            found, errors = run_checks(tmp)
-            meta['detected_by'] = found
-            meta['analysis_errors'] = errors
-            json.dump(meta, open(mp, 'w'), indent=1)
-            own = meta['property'] in found
-            rows.append((os.path.basename(d),
-                         'caught' if own else (
-                             'caught-by-other' if found else 'MISSED'),
-                         ', '.join(f'{p}:{len(k)}'
-                                   for p, k in found.items()),
-                         errors))
-        finally:
-            shutil.rmtree(tmp, ignore_errors=True)
+    mp = os.path.join(d, 'meta.json')
+    meta = json.load(open(mp))
+    patch = os.path.join(d, 'patch.diff')
+    tmp = tempfile.mkdtemp(prefix='seeded-', dir='/tmp')
+    try:
+        os.makedirs(os.path.join(tmp, 'dd'))
+        for rel in selftest.FILES:
+            s = os.path.join('/repo', rel)
+            if os.path.exists(s):
+                shutil.copy(s, os.path.join(tmp, rel))
+        rc, out = sh(f'patch -p1 -s < {patch}', cwd=tmp)
+        if rc:
+            return (os.path.basename(d), 'PATCH-FAILS', out[:80], {})
+        found, errors = run_checks(tmp)
+        meta['detected_by'] = found
+        meta['analysis_errors'] = errors
+        json.dump(meta, open(mp, 'w'), indent=1)
+        own = meta['property'] in found
+        return (os.path.basename(d),
+                'caught' if own else (
+                    'caught-by-other' if found else 'MISSED'),
+                ', '.join(f'{p}:{len(k)}' for p, k in found.items()),
+                errors)
+    finally:
+        shutil.rmtree(tmp, ignore_errors=True)
+
+
+def recheck(only=None):
+    from concurrent.futures import ProcessPoolExecutor
+    dirs = [d for d in sorted(glob.glob(os.path.join(HERE, 'seeded', '*')))
+            if os.path.exists(os.path.join(d, 'meta.json'))
+            and (only is None or only in os.path.basename(d))]
+    with ProcessPoolExecutor(16) as ex:
+        rows = list(ex.map(_recheck_one, dirs))
     for r in rows:
         print(*r)
     n = len(rows)
@@ -189,4 +192,4 @@ if __name__ == '__main__':
             tag = sys.argv[sys.argv.index('--tag') + 1]
         sys.exit(verify(sys.argv[2], sys.argv[3], note, src_root, tag))
     elif sys.argv[1] == 'recheck':
-        recheck()
+        recheck(sys.argv[2] if len(sys.argv) > 2 else None)
